@@ -156,6 +156,24 @@ def sql_reject(prog: Program) -> RuleResult:
     one = any("one()" in src(s) for t in tests if "The" in src(t.test) for s in t.body)
     al = any("all()" in src(s) for t in tests if "An" in src(t.test) for s in t.body)
     r.check(one and al, "EQLTranslator.evaluate#the-one-an-all", site(f), "", "the() fails in SQL exactly when zero or several rows match (Result.one)", "the()/an() are not mapped to one()/all()")
+    # (c') what the quantifier demands beyond "which rows": the fields of the quantifier classes that take part in evaluation in memory must
+    # be read by the translator (enforced) or rejected.  Found from source: dataclass fields of ResultQuantifier that its evaluation reads.
+    rq = prog.cls("symbolic.ResultQuantifier")
+    ev_closure, _ = self_closure(prog, rq.qual, prog.lookup(rq.qual, "_evaluate__"), property_reads=True)
+    consulted = set()
+    for g in ev_closure:
+        for n in walk_local(g.node):
+            if isinstance(n, ast.Attribute) and isinstance(n.value, ast.Name) and n.value.id == (g.params[0] if g.params else "self") and n.attr in rq.attrs and n.attr != "_child_":
+                consulted.add(n.attr)
+    tr_closure = set()
+    for entry in ("translate", "evaluate"):
+        tr_closure |= self_closure(prog, tr.qual, prog.method(tr.qual, entry, inherited=False), property_reads=True)[0]
+    read_by_translator = {n.attr for g in tr_closure for n in walk_local(g.node) if isinstance(n, ast.Attribute)}
+    for fld in sorted(consulted):
+        r.check(fld in read_by_translator, f"EQLTranslator.translate#quantifier-field:{fld}", site(prog.method(tr.qual, "translate", inherited=False)), fld,
+                "the translator looks at it (enforces or rejects)",
+                f"in-memory evaluation of the quantifier depends on its field `{fld}`, the translator never looks at it: an(entity(...), quantification=AtMost(1)) raises in memory "
+                f"when two rows match and returns both rows through SQL")
     # (d) select-like: attributes read from it must exist on every concrete descriptor class
     qod = prog.cls("symbolic.QueryObjectDescriptor")
     descs = [c for c in concrete if prog.is_subclass(c.qual, qod.qual)]
@@ -174,6 +192,10 @@ def sql_reject(prog: Program) -> RuleResult:
             t = s.test.operand.args[1]
             qs = [f.module.resolve(x) for x in (t.elts if isinstance(t, ast.Tuple) else [t])]
             admitted = [c for c in descs if any(q in prog.classes and prog.is_subclass(c.qual, q) for q in qs)]
+        # statements before the guard that cannot use the select-like (plain assignments of locals) do not end the entry section
+        if isinstance(s, (ast.Assign, ast.AnnAssign)) and not any(isinstance(x, ast.Attribute) and src(x).startswith("self.select_like") for x in ast.walk(s)) \
+                and not any(isinstance(x, ast.Call) and isinstance(x.func, ast.Attribute) and src(x.func.value) == "self" for x in ast.walk(s)):
+            continue
         if not isinstance(s, (ast.If, ast.Expr)):
             break
     for attr, (g, n) in sorted(reads.items()):
